@@ -360,6 +360,24 @@ func execC17(c CaseC17) *Outcome {
 	if len(vals) != len(have) {
 		return fail("Values() lists %d of %d entries", len(vals), len(have))
 	}
+	// ... and visible: the view is the replay of the log the store now holds
+	sameView := func(st iface.Store, when string) *Outcome {
+		got, err := viewOf(st, c.Type)
+		if err != nil {
+			return fail("%s: reading the view failed: %v", when, err)
+		}
+		want, err := replayOfLog(st, c.Type)
+		if err != nil {
+			return fail("harness: %v", err)
+		}
+		if !eqStrings(got, want) {
+			return fail("%s the view shows %v, the replay of the %d entries of the log gives %v (release order of the %d concurrent writers by priority %v, post %v)", when, got, len(have), want, c.K, c.Prio, c.PostPrio)
+		}
+		return nil
+	}
+	if out := sameView(s, "after the concurrent writers returned"); out != nil {
+		return out
+	}
 
 	// restart and load
 	mu.Lock()
@@ -386,6 +404,9 @@ func execC17(c CaseC17) *Outcome {
 	}
 	if len(world.Hashes(s1)) != len(have) {
 		return fail("after restart Values() lists %d entries, expected %d", len(world.Hashes(s1)), len(have))
+	}
+	if out := sameView(s1, "after restart and Load(-1)"); out != nil {
+		return out
 	}
 	o.NonTrivial = contended
 	if nonTrivial {
